@@ -268,6 +268,20 @@ def check(ix, rep):
         else:
             rep.ok('R-VALUEFLOW', f.module.rel, f.qual, slot, 'robustness values are only compared, copied or passed to min/max', f.node.lineno)
     rep.floor('bounded-operator implementations checked for value flow', nflow, 20)
+    # the bounded discrete-time operators select the window the Boolean semantics quantifies over
+    from sa.rules import windowrule
+    nw1, _ = windowrule.check_offline(ix, rep, mons['discrete-offline'], which=('R-WINDOW',))
+    nw2, _ = windowrule.check_online(ix, rep, mons['discrete-online'], which=('R-WINDOW',))
+    rep.floor('bounded discrete-time operators whose window was derived', nw1 + nw2, 10)
+    from sa.rules import stackstep as SS
+    mdense = ix.module('rtamt.semantics.stl.dense_time.offline.ast_visitor')
+    nst = 0
+    for opn in ('once', 'historically', 'always', 'eventually'):
+        kf = mdense.functions.get(opn + '_timed_operation')
+        if kf is not None:
+            rep.analysed(kf)
+            nst += SS.check_function(ix, rep, kf, opn, slot_prefix='dense-offline:')
+    rep.floor('abstract states of the dense sliding-window merge step', nst, 72)
     explanation = (
         'Lattice-fragment argument. For each of the four monitors the operator summaries show (a) every comparison\'s robustness is the '
         'signed distance whose sign agrees with the Boolean comparison, (b) `not` is negation, (c) every other Boolean and temporal operator '
@@ -275,8 +289,9 @@ def check(ix, rep):
         'bounded operators, which are not summarised, a value-flow rule shows that robustness values are only compared, copied, negated or '
         'passed to min/max -- never added, scaled or mapped through another function. Hand lemma (DESIGN.md): a term over {min,max,neg} of '
         '1-Lipschitz leaves is 1-Lipschitz and its sign is sound for the Boolean reading of min=and, max=or, neg=not; this gives both sentences '
-        'of the property for every nesting depth.')
-    assumptions = ['that the bounded operators select the *right* window elements is C01/C04\'s undecided part; selection of any elements keeps sign/Lipschitz soundness only together with it',
+        'of the property for every nesting depth. R-WINDOW: the index window of each bounded discrete-time operator (offline handler, online ring '
+        'buffer) is derived symbolically and equals the window the semantics quantifies over; R-SEGSTEP: the dense-time merge step.')
+    assumptions = ['R-WINDOW (discrete time) and R-SEGSTEP (dense time, merge step only) show that the bounded operators quantify over the right window; the dense-time online carry-over is not decided',
                    'hand lemma on the {min,max,neg} lattice fragment']
     return explanation, assumptions, 'one instance per (monitor, comparison), per (monitor, operator) lattice obligation, per bounded implementation', {'exhaustive': True}
 
